@@ -1,0 +1,19 @@
+//go:build verif
+
+// Contracts for package section, checked by /verif/gvc (comment-only file:
+// it declares nothing and is excluded from ordinary builds by the tag).
+
+package section
+
+//@ func (p *programSplitter) skipUntilEOL
+//@   requires 0 <= p.offset
+//@   ensures old(p.offset) <= p.offset
+//@   ensures p.offset <= len(p.content) || p.offset == old(p.offset)
+//@   ensures p.offset < len(p.content) ==> p.content[p.offset] == '\n'
+//@   ensures forall i int :: old(p.offset) <= i && i < p.offset ==> p.content[i] != '\n'
+//@   assigns p.offset
+//@   loop 0
+//@     invariant old(p.offset) <= p.offset
+//@     invariant p.offset <= len(p.content) || p.offset == old(p.offset)
+//@     invariant forall i int :: old(p.offset) <= i && i < p.offset ==> p.content[i] != '\n'
+//@     decreases len(p.content) - p.offset
